@@ -129,6 +129,7 @@ def gen_runs(ctx, n_frames):
     for i in range(n_frames):
         otype = ['binary', 'normal'][i % 2]
         df, meta = datagen.cat_frame(ctx.rng, outcome=otype, cell=(2, 5))
+        df, meta['dress'] = datagen.dress(df, ctx.rng, i)
         ns = meta['n_strata']
         for est in ('AIPTW', 'TMLE'):
             binary = otype == 'binary'
@@ -144,7 +145,8 @@ def gen_runs(ctx, n_frames):
         otype = ['binary', 'normal'][i % 2]
         df, meta = datagen.cat_frame(ctx.rng, outcome=otype, cell=(4, 7))
         df = add_missing(ctx.rng, df, otype == 'binary')
-        meta = dict(meta, missing=True)
+        df, dr = datagen.dress(df, ctx.rng, i + 1)
+        meta = dict(meta, missing=True, dress=dr)
         ns = meta['n_strata']
         mo = mis_out(ctx.rng, meta, ns, otype == 'binary')
         if mo[0] == 'garbage' and otype != 'binary':
@@ -211,11 +213,13 @@ def run_runs(ctx, fails, runs):
         ctx.evaluations += 1
         est, which, meta = rn['est'], rn['which'], rn['meta']
         n = meta['n']
-        payload = {'data': {c: [None if (isinstance(v, float) and v != v) else v for v in rn['df'][c].tolist()] for c in rn['df'].columns},
+        payload = {'frame': datagen.pack_frame(rn['df']),
                    'meta': meta, 'est': est, 'which': which, 't': rn['t'], 'o': rn['o'], 'm': rn.get('m')}
         ctx.count('%s:%s' % (est, which))
         ctx.count('mis-treat:' + rn['t'][0])
         ctx.count('mis-out:' + rn['o'][0])
+        ctx.count('row labels:' + meta.get('dress', {}).get('index', 'range'))
+        ctx.count('exposure dtype:' + meta.get('dress', {}).get('adtype', 'int64'))
         if 'error' in out:
             fails.append((n, '%s.%s.raises' % (est, which), '%s raised %s (treatment side %r, outcome side %r)' % (est, out['error'], rn['t'][:2], rn['o'][:2]), payload))
             continue
@@ -283,7 +287,7 @@ def replay(ctx, payload):
         c16.aipsw_dr_replay(ctx, fails, payload)
         report(ctx, fails)
         return
-    df = pd.DataFrame(payload['data'])
+    df = datagen.unpack_frame(payload['frame']) if 'frame' in payload else pd.DataFrame(payload['data'])
     df['Y'] = df['Y'].astype(float)
     run_runs(ctx, fails, [{'df': df, 'meta': payload['meta'], 'est': payload['est'], 'which': payload['which'],
                            't': tuple(payload['t']), 'o': tuple(payload['o']),
